@@ -1,81 +1,60 @@
 (* Props/C03.v — Snapshots are consistent and stable.
-   Only statements, `exact`, and Print Assumptions.  Model: Conc/Snapshot.v. *)
+   Only statements, `exact`, and Print Assumptions.
+   Model of the code as it is now (acquisition under the publication lock): Conc/Snapshot.v.
+   Model of the acquisition before that repair (regression witnesses): Conc/SnapshotUnlocked.v. *)
 From Coq Require Import List ZArith Bool.
 From NDB Require Import Conc.Sched Conc.Snapshot Conc.Snapshot_proofs.
+From NDB Require Conc.SnapshotUnlocked Conc.SnapshotUnlocked_proofs.
 Import ListNotations.
 
-(* The property as stated (for the record; REFUTED on the pinned tree by the two witnesses below):
-   under every schedule every view a reader observes is the committed state after some prefix of the
-   history, and all views of one snapshot are equal. *)
+(* The property as stated (for the record; still REFUTED by K-C03-inplace below): under every schedule every
+   view a reader observes is the committed state after the operations published when its snapshot was taken. *)
 Definition C03_full_statement : Prop :=
-  forall (h : list wop) (readers : list nat) (sched : list nat) (r : nat),
-    let sh := Sched.shared (srun sched (sinit h readers)) in
-    forallb (consistent_with h) (obs_of r sh) = true /\ all_same (obs_of r sh) = true.
+  forall (h : list wop) (readers : list nat) (sched : list nat) (o : obs),
+    In o (s_obs (Sched.shared (srun sched (sinit h readers)))) ->
+    o_view o = view_of_spec (spec_of (o_hist o)).
 
-(* K-C03-torn: snapshot acquisition is not atomic w.r.t. the publication steps of commit/compaction *)
-Definition C03_torn_refuted_statement : Prop :=
-  exists h readers sched r,
-    forallb (consistent_with h) (obs_of r (Sched.shared (srun sched (sinit h readers)))) = false.
-Theorem C03_torn_refuted : C03_torn_refuted_statement.
-Proof. exists [WCommit tx1], [1], torn_commit_sched, 1. exact (proj2 torn_commit). Qed.
-Print Assumptions C03_torn_refuted.
+(* Consistency for ALL histories, ALL numbers of readers, ALL schedules (no quiescence hypothesis any more):
+   every observation made while no compaction sink step ran since the snapshot was acquired (or through a
+   snapshot that has no property root, which never reads the page heap) is exactly the committed state after the
+   j operations whose publication had completed at the acquisition - each of them completely, nothing else;
+   the j operations are a prefix of the history (j <= length h). *)
+Definition C03_snapshot_consistent_statement : Prop :=
+  forall (h : list wop) (readers : list nat) (sched : list nat) (o : obs),
+    In o (s_obs (Sched.shared (srun sched (sinit h readers)))) -> o_safe o = true ->
+    exists j, j <= length h /\ o_hist o = firstn j h /\ o_view o = view_of_spec (spec_of (firstn j h)).
+Theorem C03_snapshot_consistent : C03_snapshot_consistent_statement.
+Proof. exact snapshot_consistent. Qed.
+Print Assumptions C03_snapshot_consistent.
 
-(* the two compaction variants of the same class: relationship lost / relationship doubled *)
-Definition C03_torn_compaction_refuted_statement : Prop :=
-  (exists sched, map v_edges (obs_of 1 (Sched.shared (srun sched (sinit [WCommit tx1; WCompact] [1])))) = [[]]) /\
-  (exists sched, map v_edges (obs_of 1 (Sched.shared (srun sched (sinit [WCommit tx1; WCompact] [1])))) = [[(1, 1); (1, 1)]]).
-Theorem C03_torn_compaction_refuted : C03_torn_compaction_refuted_statement.
-Proof.
-  split; [exists torn_compact_lost_sched; exact (proj1 torn_compact_lost)
-         |exists torn_compact_doubled_sched; exact (proj1 torn_compact_doubled)].
-Qed.
-Print Assumptions C03_torn_compaction_refuted.
-
-(* K-C03-inplace: a snapshot acquired at a quiescent point changes when a later compaction rewrites
-   the property tree in place *)
+(* K-C03-inplace (recorded, not repaired): a held snapshot reads 5, 5 and then 6 for the same property: the
+   commit after its acquisition is invisible, the compaction after that rewrites the property tree it reads
+   through.  The model flags exactly the third read as unsafe. *)
 Definition C03_inplace_refuted_statement : Prop :=
-  exists h readers sched r,
-    all_same (obs_of r (Sched.shared (srun sched (sinit h readers)))) = false.
+  exists h readers sched,
+    let obs := obs_of 1 (Sched.shared (srun sched (sinit h readers))) in
+    map (fun o => (v_props (o_view o), o_safe o)) obs = [([Some 5%Z], true); ([Some 5%Z], true); ([Some 6%Z], false)] /\
+    map (fun o => length (o_hist o)) obs = [2; 2; 2].
 Theorem C03_inplace_refuted : C03_inplace_refuted_statement.
-Proof. exists inplace_history, [3], inplace_sched, 1. exact (proj2 inplace_unstable). Qed.
+Proof. exists inplace_history, [3], inplace_sched. exact inplace_unstable. Qed.
 Print Assumptions C03_inplace_refuted.
 
-(* Conditional 1 (outside K-C03-torn): for EVERY history of whole writer operations (commits and
-   compactions in any order and number), a snapshot acquired while no writer step is in flight shows
-   exactly the committed state: every transaction completely, nothing else. *)
-Definition C03_quiescent_consistent_statement : Prop :=
-  forall (h : list wop) (r : nat) (l : local),
-    let st := exec_steps 0 (writer_prog h) (shared0, local0) in
-    view_of (snd (exec_steps r acquire_steps (fst st, l))) (s_heap (fst st)) = view_of_spec (spec_of h).
-Theorem C03_quiescent_consistent : C03_quiescent_consistent_statement.
-Proof. exact quiescent_consistent. Qed.
-Print Assumptions C03_quiescent_consistent.
-
-(* Conditional 2 (outside K-C03-inplace): from any reachable or unreachable configuration and for EVERY
-   schedule, as long as no compaction sink step remains to be run by any thread, the view of a reader
-   that has finished acquiring never changes - whatever commits, label publications, other readers and
-   reads are interleaved. *)
-Definition C03_stable_without_compaction_statement : Prop :=
-  forall (c : scfg) (r : nat) (sched : list nat),
-    no_sink c -> only_reads c r ->
-    let c' := srun sched c in
-    view_of (loc (threads c' r)) (s_heap (Sched.shared c')) = view_of (loc (threads c r)) (s_heap (Sched.shared c)).
-Theorem C03_stable_without_compaction : C03_stable_without_compaction_statement.
-Proof. exact stable_without_compaction. Qed.
-Print Assumptions C03_stable_without_compaction.
-
-(* Conditional 3 (schedule level, outside both classes): for every history h, every j, every reader r: run the
-   writer's first j operations, let r acquire with no writer step in between, then continue with ANY schedule
-   (the remaining commits step by step, other readers acquiring and reading, r reading whenever it is scheduled):
-   if no compaction is among the remaining operations, every view r ever observes is exactly the committed
-   state after the first j operations. *)
-Definition C03_quiescent_snapshot_schedules_statement : Prop :=
-  forall (h : list wop) (readers : list nat) (j r : nat) (sched' : list nat),
-    1 <= r <= length readers ->
-    (forall o, In o (skipn j h) -> o <> WCompact) ->
-    let pre := repeat 0 (length (writer_prog (firstn j h))) ++ repeat r (length acquire_steps) in
-    let c := srun (pre ++ sched') (sinit h readers) in
-    forall v, In v (obs_of r (Sched.shared c)) -> v = view_of_spec (spec_of (firstn j h)).
-Theorem C03_quiescent_snapshot_schedules : C03_quiescent_snapshot_schedules_statement.
-Proof. exact quiescent_snapshot_schedules. Qed.
-Print Assumptions C03_quiescent_snapshot_schedules.
+(* Regression witnesses of the repaired defect K-C03-torn (acquisition WITHOUT the publication lock, fields copied
+   one after the other): a node without labels, property and relationship; a relationship lost; a relationship twice. *)
+Definition C03_unlocked_torn_refuted_statement : Prop :=
+  (exists h readers sched r,
+     forallb (SnapshotUnlocked.consistent_with h)
+       (SnapshotUnlocked.obs_of r (Sched.shared (SnapshotUnlocked.srun sched (SnapshotUnlocked.sinit h readers)))) = false) /\
+  (exists sched, map SnapshotUnlocked.v_edges (SnapshotUnlocked.obs_of 1 (Sched.shared (SnapshotUnlocked.srun sched
+       (SnapshotUnlocked.sinit [SnapshotUnlocked.WCommit SnapshotUnlocked_proofs.tx1; SnapshotUnlocked.WCompact] [1])))) = [[]]) /\
+  (exists sched, map SnapshotUnlocked.v_edges (SnapshotUnlocked.obs_of 1 (Sched.shared (SnapshotUnlocked.srun sched
+       (SnapshotUnlocked.sinit [SnapshotUnlocked.WCommit SnapshotUnlocked_proofs.tx1; SnapshotUnlocked.WCompact] [1])))) = [[(1, 1); (1, 1)]]).
+Theorem C03_unlocked_torn_refuted : C03_unlocked_torn_refuted_statement.
+Proof.
+  split; [|split].
+  - exists [SnapshotUnlocked.WCommit SnapshotUnlocked_proofs.tx1], [1], SnapshotUnlocked_proofs.torn_commit_sched, 1.
+    exact (proj2 SnapshotUnlocked_proofs.torn_commit).
+  - exists SnapshotUnlocked_proofs.torn_compact_lost_sched. exact (proj1 SnapshotUnlocked_proofs.torn_compact_lost).
+  - exists SnapshotUnlocked_proofs.torn_compact_doubled_sched. exact (proj1 SnapshotUnlocked_proofs.torn_compact_doubled).
+Qed.
+Print Assumptions C03_unlocked_torn_refuted.
